@@ -495,6 +495,18 @@ pub async fn async_write<W: AsyncWrite + Unpin>(case: &WCase, api: u8, sink: W, 
 
 // ------------------------------------------------------------------------------------------ harness body
 
+/// Number of sink polls of the default (always ready, full transfers) execution: the size of the choice
+/// tree under `Choose` grows with its `bound`-th power.
+pub fn sink_polls(case: &WCase) -> u64 {
+    let ch = Chooser::defaults();
+    let sink = PollWriter::new(PollMode::Ready, None);
+    let sink2 = sink.clone();
+    let api = case.apis[0];
+    let _ = vrt::run(&ch, RtConfig::new(1, CostModel::Delay), || vrt::block_on(async_write(case, api, sink2, 1)));
+    let n = sink.state.lock().unwrap().polls;
+    n
+}
+
 fn api_name(case: &WCase, api: u8) -> &'static str {
     match (&case.content, api) {
         (Content::Aln { .. }, 0) => "write_alignment_record",
